@@ -38,6 +38,8 @@ type stScenario struct {
 	// one was finalized (files of several streams coexist in a muxer); the first file's readers
 	// must not notice
 	Neighbour []int `json:"neighbour,omitempty"`
+	// Stale: a file of that many bytes with the same name already exists in the directory (disk)
+	Stale int `json:"stale,omitempty"`
 }
 
 func drawStorage(t *rapid.T) stScenario {
@@ -103,6 +105,9 @@ func drawStorage(t *rapid.T) stScenario {
 	sc.PartBufs = rapid.SliceOfN(bufGen, 1, 3).Draw(t, "partbufs")
 	sc.KeepFileRd = rapid.Bool().Draw(t, "keepfile")
 	sc.ReadersPost = rapid.IntRange(1, 2).Draw(t, "readers")
+	if rapid.IntRange(0, 3).Draw(t, "stale") == 0 {
+		sc.Stale = rapid.IntRange(1, 3000).Draw(t, "staleBytes")
+	}
 	if rapid.Bool().Draw(t, "neighbour") {
 		sc.Neighbour = rapid.SliceOfN(rapid.IntRange(0, 260), 1, 6).Draw(t, "neighbourSizes")
 	}
@@ -196,6 +201,11 @@ func runStorageOn(kind string, sc stScenario) (string, bool) {
 			return "harness: " + err.Error(), false
 		}
 		defer os.RemoveAll(dir)
+		if sc.Stale > 0 {
+			if err := os.WriteFile(filepath.Join(dir, fname), bytes.Repeat([]byte{0x5a}, sc.Stale), 0o644); err != nil {
+				return "harness: " + err.Error(), false
+			}
+		}
 		factory = storage.NewFactoryDisk(dir)
 	} else {
 		factory = storage.NewFactoryRAM()
@@ -466,6 +476,9 @@ func execStorage(sc stScenario) core.Outcome {
 	}
 	if len(sc.Neighbour) > 0 {
 		o.Labels = append(o.Labels, "neighbour-file")
+	}
+	if sc.Stale > 0 {
+		o.Labels = append(o.Labels, "stale-file-with-the-same-name")
 	}
 	for _, b := range sc.FileBufs {
 		if b == 0 {
